@@ -24,7 +24,11 @@ type FuncResult struct {
 }
 
 func newExec(g *Global, fn *ssa.Function, fc *FuncContract) *Exec {
-	ex := &Exec{g: g, vc: newVC(), initKey: map[string]Term{}, keySort: map[string]Sort{}, root: fn, fc: fc, fnID: shortID(fnID(fn)), safety: map[string]bool{}, nSafety: map[string]int{}, assumed: map[string]bool{}, inlined: map[string]bool{}, calls: map[string]bool{}, ufunUsed: map[string]bool{}}
+	id := ""
+	if fn != nil {
+		id = shortID(fnID(fn))
+	}
+	ex := &Exec{g: g, vc: newVC(), initKey: map[string]Term{}, keySort: map[string]Sort{}, root: fn, fc: fc, fnID: id, lemmasUsed: map[string]bool{}, safety: map[string]bool{}, nSafety: map[string]int{}, assumed: map[string]bool{}, inlined: map[string]bool{}, calls: map[string]bool{}, ufunUsed: map[string]bool{}}
 	ex.te = newTypeEnv(g)
 	if fc != nil {
 		for _, s := range fc.Safety {
@@ -69,6 +73,11 @@ func verifyFunc(g *Global, fn *ssa.Function, fc *FuncContract) *FuncResult {
 	if len(fc.Ensures) > 0 {
 		ex.vc.cover(&Obligation{ID: ex.fnID + "#cover.return", Func: ex.fnID, Kind: "cover", Props: fc.Props}, rpc)
 	}
+	{
+		se := ex.newSpecEnv(fr, rpc, rst, st)
+		ex.bindResults(se, fn, results)
+		ex.applyAt(fr, "post", rpc, rst, se.vars)
+	}
 	for _, en := range fc.Ensures {
 		se := ex.newSpecEnv(fr, rpc, rst, st)
 		se.entryPar = true
@@ -100,7 +109,18 @@ func verifyFunc(g *Global, fn *ssa.Function, fc *FuncContract) *FuncResult {
 	ex.vc.preamble = append([]string{basePreamble}, ex.te.declText()...)
 	ex.vc.preamble = append(ex.vc.preamble, ex.ufunDecl...)
 	ex.vc.preamble = append(ex.vc.preamble, ex.te.strAxioms()...)
+	if len(ex.outside) > 0 {
+		// never proved, never a counterexample: the function uses a construct the lowering cannot model soundly
+		for _, o := range ex.vc.obls {
+			o.Static = true
+			o.Result = "outside-subset"
+			o.Detail = "function is outside the verified subset: " + strings.Join(ex.outside, "; ")
+		}
+	}
 	res := &FuncResult{ID: ex.fnID, Fn: fn, FC: fc, VC: ex.vc, Obls: ex.vc.obls, Covers: ex.vc.covers, Notes: ex.vc.notes, Arith: "int+wrap"}
+	for k := range ex.lemmasUsed {
+		res.Assumed = append(res.Assumed, "lemma "+shortID(k)+" (proved by induction under the same property)")
+	}
 	for k := range ex.assumed {
 		res.Assumed = append(res.Assumed, k)
 	}
